@@ -8,7 +8,8 @@ PARALLEL = True
 BATCH = 60
 BUDGET_S = {'quick': 80, 'thorough': 1200}
 RULE = ('1..4 probes with different channel counts (>= 2) and template counts (>= 2), permuted channel '
-        'maps, non-negative coordinates (incl. probes whose channels share one x), index tables of '
+        'maps, non-negative coordinates (incl. probes whose channels share one x, and fractional coordinates k/4, handed to '
+        'the model exactly in quarter units), index tables (incl. tables of different widths across probes: min(3, n) wide) of '
         'int32/int64/uint32, whitening / inverse whitening / similarity matrices in all, some or none of the probes '
         '(written or skipped as Lean mergeOptional decides); every template cell is a distinct token. One case = one '
         'real Merger.merge(), also run through the Lean file-system model of the whole merge; every fourth case uses '
@@ -31,7 +32,7 @@ def model_query(case, impl_res):
         toff.append(t)
         t += len(p['templates'])
     return dict(p=PID, op='merge_channels', maps=[p['channel_map'] for p in P],
-                positions=[[[int(x), int(y)] for x, y in p['channel_positions']] for p in P],
+                positions=[[[F.pos_tok(x), F.pos_tok(y)] for x, y in p['channel_positions']] for p in P],
                 nts=[len(p['templates']) for p in P], ns=len(P[0]['templates'][0]), toks=[p['tok'] for p in P],
                 pc_ind=[p['pc_feature_ind'] for p in P], tf_ind=[p['template_feature_ind'] for p in P],
                 template_offsets=toff, spike_templates=[p['spike_templates'] for p in P],
@@ -143,8 +144,8 @@ def judge(case, impl_res, ans):
     mm = ok['model']
     if mm['n_templates'] != sum(nts) or mm['n_channels'] != sum(ncs) or mm['channel_probes'] != m['channel_probe']:
         return 'SPEC: the TemplateModel returned by merge() does not show the merged templates / channels / probe labels'
-    if [[int(round(x)), int(round(y))] for x, y in pos] != m['positions']:
-        return 'CORR: merged positions differ from the model'
+    if [[x * F.POS_SCALE, y * F.POS_SCALE] for x, y in pos] != [[float(x), float(y)] for x, y in m['positions']]:
+        return 'CORR: merged positions differ from the model (exact comparison in units of 1/%d)' % F.POS_SCALE
     # the merge as a function on directories (Lean C11.merge): files created, contents of the channel/template files
     return F.fs_compare(case, ok, ans.get('second') or {'err': 'no answer'}, F.C12_FILES)
 
@@ -160,6 +161,10 @@ def tally(rep, case, impl_res, ans):
         rep.count('a probe with an empty (all-NaN) template')
     rep.count('probe_dir_names:%s/%s' % (case.get('dirnames', 'idx'), case.get('dirkind', 'path')))
     rep.count('probes:%d' % len(case['probes']))
+    if ragged_tables(case):
+        rep.count('index tables of different widths across probes')
+    if case.get('fractional_positions'):
+        rep.count('fractional probe coordinates (multiples of 1/4)')
     rep.count('positions_dtype:' + (case['probes'][0].get('dtypes') or {}).get('channel_positions', 'float64'))
     P = case['probes']
     if len({len(p['channel_map']) for p in P}) > 1:
@@ -177,6 +182,12 @@ def tally(rep, case, impl_res, ans):
         rep.count('optional_%s:%s' % (key, 'all' if n == len(P) else 'none' if n == 0 else 'some'))
 
 
+def ragged_tables(case):
+    """the probes' pc_feature_ind (or template_feature_ind) tables have different row widths"""
+    P = case['probes']
+    return any(len({len(row) for p in P for row in p[key]}) > 1 for key in ('pc_feature_ind', 'template_feature_ind'))
+
+
 def classify(case, impl_res, ans, why):
     P = case['probes']
     site = 'other'
@@ -187,10 +198,21 @@ def classify(case, impl_res, ans, why):
         if key in why:
             site = name
             break
-    return dict(kind=why.split(':')[0], site=site, nprobes_ge3=len(P) >= 3,
-                single_x=any(len({x for x, y in p['channel_positions']}) == 1 for p in P),
+    one_x = [len({x for x, y in p['channel_positions']}) == 1 for p in P]
+    if site == 'positions_apart':
+        # the two probes the judge names: the class is "a single-column probe is involved in THIS collision"
+        import re
+        pair = [int(g) for g in re.findall(r'probes (\d+) and (\d+)', why)[0]]
+        single_x = any(one_x[k] for k in pair if k < len(P))
+    else:
+        single_x = any(one_x)
+    return dict(kind=why.split(':')[0], site=site, nprobes_ge3=len(P) >= 3, ragged_tables=ragged_tables(case),
+                single_x=single_x,
                 uint_ind=any('uint' in p['dtypes']['pc_feature_ind'] or 'uint' in p['dtypes']['template_feature_ind'] for p in P),
-                raised=impl_res.get('raised'), where=impl_res.get('where'))
+                raised=impl_res.get('raised'), where=impl_res.get('where'),
+                # what the exception says, independent of line numbers: np.concatenate refusing arrays of different widths
+                raised_what=('np.concatenate: dimensions differ' if 'except for the concatenation axis must match' in str(impl_res.get('msg'))
+                             else None))
 
 
 def shrink(case):
@@ -224,7 +246,18 @@ def gen(tier, rng):
             kw['last_template_empty'] = True
         if i % 5 == 1:
             kw['gapped'] = True       # channel maps with holes (dead channels): raw offsets != index offsets
+        if i % 8 == 6:
+            # the sorter lists min(3, n) channels / templates per template: a probe with 2 channels (templates) next to a
+            # larger one has NARROWER index tables
+            kw['nloc'] = kw['tl'] = 3
         case = dict(p=PID, **M.merge_case(rng, nprobes=[1, 2, 3, 4][i % 4] if i < 40 else None, **kw))
+        if i % 3 == 1 and 'float' in case['probes'][0]['dtypes']['channel_positions']:
+            # fractional coordinates (exact in single and double precision): each probe moved by a multiple of 1/4 along x,
+            # each channel by one along y
+            case['fractional_positions'] = True
+            for p in case['probes']:
+                dx = rng.randrange(4) / 4.
+                p['channel_positions'] = [[x + dx, y + rng.randrange(4) / 4.] for x, y in p['channel_positions']]
         if i % 6 in (2, 5):
             # inverse whitening matrices stored in all (block-diagonal merge) or only some probes (skipped by the
             # merger, computed by the final load); tokens: the whitening tokens + 500000
